@@ -50,7 +50,7 @@ def rank(idxs_ds, mv=_mv):
 @njit
 def upstream_count(idxs_ds, mv=_mv, mask=None):
     """Returns array with number of upstream cells per cell."""
-    n_up = np.full(idxs_ds.size, -9, dtype=np.int8)
+    n_up = np.full(idxs_ds.size, -9, dtype=np.int32)
     for idx0 in range(idxs_ds.size):
         idx_ds = idxs_ds[idx0]
         if idx_ds != mv:
